@@ -107,7 +107,7 @@ PROPS = {
     'C16': dict(
         units=['disp'],
         kani_quick=[],
-        kani_thorough=['id_axioms_u32', 'uf_reset'],
+        kani_thorough=['id_axioms_u32', 'uf_reset', 'offsets_intersect_dense_dense', 'offsets_scan_for_offset', 'offsets_binary_search_from'],
         design_ref='DESIGN.md section 4 (U-DISP, U-SWT, U-OFF) and section 5 C16',
         level_text='Unbounded proof (Verus) that every operation of the real DisplacedTable (core-relations/src/uf/mod.rs: insert_impl, expand, '
                    'timestamp_bounds, eval, eval_constraint, fast_subset, get_row_column, len, all, version, updates_since, clear) keeps the '
